@@ -13,6 +13,7 @@ mod c13;
 mod c14;
 mod c15;
 mod c16;
+mod c18;
 mod c20;
 mod c11;
 mod cborref;
@@ -102,6 +103,7 @@ fn main() {
       "C06" => c06::replay(&j["case"]),
       "C20" => c20::replay(&j["case"]),
       "C16" => c16::replay(&j["case"]),
+      "C18" => c18::replay(&j["case"]),
       "C05" => c05::replay(&j["case"]),
       "C08" => c08::replay(&j["case"]),
       "C02" => c02::replay(&j["case"], j["kind"].as_str().unwrap_or("")),
@@ -139,6 +141,7 @@ fn main() {
     "C06" => c06::run(tier),
     "C20" => c20::run(tier),
     "C16" => c16::run(tier),
+    "C18" => c18::run(tier),
     "C05" => c05::run(tier),
     "C08" => c08::run(tier),
     "C02" => c02::run(tier),
